@@ -502,8 +502,17 @@ def mkNode (id : NodeId) (type : Str) (value : List Nat) (attrs : List Attr) : T
 
 /-! ### split -/
 
+/-- the tree WITH the repair hooks/fix-c19-splittext-utf16-length.patch (0e18e1d8): `SplitText` stores the UTF-16 length of the left
+    half as its cached lengths; `false` = the tree before it, which stored `len(leftRune)`, a RUNE count - one short for each
+    supplementary-plane character (Props/C19.lean `surrogate_*`) -/
+def fixSplitTextLength : Bool := true
+
+/-- the cached length `SplitText` gives the left half (`u` = its UTF-16 units) -/
+def splitLenW (fix : Bool) (u : List Nat) : Int :=
+  if fix then ((Text.sanitize u).length : Int) else ((Text.decodeU16 u).length : Int)
+
 /-- `TreeNode.SplitText`; `none` = no split happened -/
-def Tree.splitText (t : Tree) (n : Ptr) (offset : Int) : Except Err (Tree × Option Ptr) :=
+def Tree.splitTextW (fix : Bool) (t : Tree) (n : Ptr) (offset : Int) : Except Err (Tree × Option Ptr) :=
   let nd := t.get n
   if offset == 0 || offset == nd.visLen then .ok (t, none)
   else if offset < 0 || offset > nd.visLen then .error .splitRange
@@ -512,7 +521,7 @@ def Tree.splitText (t : Tree) (n : Ptr) (offset : Int) : Except Err (Tree × Opt
     let leftU := nd.value.take k
     let rightU := nd.value.drop k
     if (Text.decodeU16 rightU).isEmpty then .ok (t, none) else
-    let ll : Int := (Text.decodeU16 leftU).length
+    let ll : Int := splitLenW fix leftU
     let t1 := t.modify n (fun x => { x with value := Text.sanitize leftU, visLen := ll, totLen := ll })
     let right : TNode :=
       { mkNode ⟨nd.id.createdAt, k + nd.id.offset⟩ nd.type (Text.sanitize rightU) [] with
@@ -524,6 +533,9 @@ def Tree.splitText (t : Tree) (n : Ptr) (offset : Int) : Except Err (Tree × Opt
       match t2.insertAfterInternal par rp n with
       | .error e => .error e
       | .ok t3 => .ok (t3, some rp)
+
+def Tree.splitText (t : Tree) (n : Ptr) (offset : Int) : Except Err (Tree × Option Ptr) :=
+  t.splitTextW fixSplitTextLength n offset
 
 /-- §7.1 loop of `SplitElement` with Go's slice aliasing: `leftChildren` shares the backing array of
     `allChildren`, so every `append(leftChildren, child)` overwrites the next slot of `allChildren`,
